@@ -200,6 +200,22 @@ TrimLR ==
      {<<AnyE(<<SeqE("of", <<Opt(SPt), LTrim(Ref(1), "nl"), Bt>>), A>>)>>,
       <<LTrim(AnyE(<<SeqE("of", <<Opt(X), Ref(1), Bt>>), A>>), "spaces")>>}
 
+\* right recursion behind a nullable prefix and a consuming element: P -> pre a P | a   (counters must be reset once input
+\* was consumed, whichever element consumed it)
+HiddenRight ==
+  LET pre == {<<Opt(Bt)>>, <<Eps>>, <<Opt(Bt), Opt(X)>>, <<Opt(Ref(1))>>, <<AnyE(<<Bt, Eps>>)>>, <<SeqE("many", <<Bt>>)>>, <<ChoiceE(<<Bt, Eps>>)>>}
+  IN {<<AnyE(<<SeqE("of", p \o <<A, Ref(1)>>), A>>)>> : p \in pre} \cup
+     {<<AnyE(<<A, SeqE("of", p \o <<A, Ref(1)>>)>>)>> : p \in pre} \cup
+     {<<AnyE(<<SeqE("of", p \o <<A, Ref(1), Bt>>), Eps>>)>> : p \in pre}
+
+\* Optional directly over (curtailed) left-recursive calls, two nonterminals that meet at the same position from different contexts
+OptLR ==
+  LET n1 == {AnyE(<<A, Opt(Ref(2))>>), Opt(SeqE("of", <<Ref(1), Ref(2), A>>)), Opt(SeqE("of", <<Ref(1), Ref(2)>>)),
+             AnyE(<<Opt(Ref(2)), A>>), Opt(SeqE("of", <<Ref(2), A>>)), AnyE(<<SeqE("of", <<Opt(Ref(2)), A>>), Bt>>)}
+      n2 == {AnyE(<<SeqE("of", <<Ref(2), Bt>>), SeqE("of", <<Ref(1), Ref(1), Bt>>)>>), Ref(1), SeqE("of", <<Ref(1), Bt>>),
+             AnyE(<<SeqE("of", <<Ref(1), Bt>>), Bt>>), AnyE(<<SeqE("of", <<Ref(2), Bt>>), Ref(1)>>), Opt(SeqE("of", <<Ref(1), Bt>>))}
+  IN {<<x, y>> : x \in n1, y \in n2}
+
 \* two nonterminals: mutual and indirect left recursion
 F3Pairs ==
   LET at == {A, Bt, Ref(1), Ref(2), Opt(Ref(2))}
